@@ -212,6 +212,12 @@ pub fn run_outcome(ctx: &Ctx) -> (&'static str, Outcome) {
             "C20" => {
                 if r < 40 { Regime::Clean } else if r < 48 { Regime::Immediate } else if r < 58 { Regime::Roster } else if r < 66 { Regime::Unrestricted } else if r < 72 { Regime::CausalNoPropFirst } else if r < 80 { Regime::RotateRace } else { Regime::Restart }
             }
+            "C08" => {
+                // one history in five with nostr-id rotations, most of them with rotations as frequent as
+                // all other admin commits together: a rotation that was applied and then loses its race
+                // is rolled back, and the id it introduced must stop resolving to the group
+                if r < 34 { Regime::Clean } else if r < 44 { Regime::Immediate } else if r < 56 { Regime::Roster } else if r < 64 { Regime::Unrestricted } else if r < 72 { Regime::CausalNoPropFirst } else if r < 92 { Regime::RotateRace } else { Regime::Restart }
+            }
             _ => {
                 if r < 40 { Regime::Clean } else if r < 52 { Regime::Immediate } else if r < 66 { Regime::Roster } else if r < 76 { Regime::Unrestricted } else if r < 84 { Regime::CausalNoPropFirst } else if r < 92 { Regime::RotateRace } else { Regime::Restart }
             }
@@ -235,6 +241,9 @@ pub fn run_outcome(ctx: &Ctx) -> (&'static str, Outcome) {
             if i % 3 == 0 {
                 sim.warmup_commits = rng.range(6, 12);
             }
+        }
+        if prop == "C08" && regime == Regime::RotateRace && i % 5 != 0 {
+            sim.rotate_boost = 6;
         }
         if matches!(prop, "C07" | "C08") && i % 7 == 0 {
             sim.warmup_commits = rng.range(6, 11);
@@ -331,8 +340,8 @@ fn describe(prop: &str, out: &Outcome, ctx: &Ctx) -> (&'static str, Vec<Floor>, 
             common_assumptions,
         ),
         "C08" => (
-            "after every single step of generated histories (local operations and processed events incl. rollbacks, own-commit echoes, immediate merges, welcomes, nostr-id rotations, relay changes) the acting client's stored record and relay set are compared field by field with its MLS state, and the id in force must resolve to the group; non-trivial = history with at least one canonical commit",
-            if replaying { vec![] } else { vec![Floor { what: "mirror checks", have: out.get("c08_mirror_checks"), need: 5000 }] },
+            "after every single step of generated histories (local operations and processed events incl. rollbacks, own-commit echoes, immediate merges, welcomes, nostr-id rotations, relay changes) the acting client's stored record and relay set are compared field by field with its MLS state, and the id in force must resolve to the group while every id seen in force earlier on that client (rotated away, or rolled back together with the commit that introduced it) must not; non-trivial = history with at least one canonical commit",
+            if replaying { vec![] } else { vec![Floor { what: "mirror checks", have: out.get("c08_mirror_checks"), need: 5000 }, Floor { what: "look-ups by a nostr id that was in force earlier (rotated away or rolled back)", have: out.get("c08_stale_id_probes"), need: 300 }] },
             common_assumptions,
         ),
         "C20" => (
